@@ -2019,6 +2019,10 @@ class Engine(object):
         self.P.check_common_type('CASE', vals)
 
     def in_(self, e, scope, group):
+        # PG 9.23.1 / 9.24.1 IN, 9.23.2 / 9.24.2 NOT IN (also for row constructors, compared row-wise per 9.24.5) and
+        # MY 12.4.2 IN / 13.2.15.5 row subqueries ((a, b) = (x, y) is a = x AND b = y): true if an equal row is found; otherwise
+        # NULL if the left operand or any compared right-hand component is NULL in a way that leaves an equality unknown,
+        # else false; NOT IN is the three-valued negation
         v = self.ev(e[1], scope, group)
         rhs = e[2]
         if isinstance(rhs, tuple) and rhs[0] == 'sub':
